@@ -64,6 +64,25 @@ Theorem C18_quiescence_reachable : forall cap (e : env) s,
                /\ quiescent (run cap ops' s).
 Proof. exact quiescence_reachable. Qed.
 
+(** Which messages: everything except PostStart / Terminated / SendDeadletter — including the reentrancy
+    envelopes AsyncRequest / AsyncResponse refused by a full mailbox — is handed to the dead-letter actor. *)
+Theorem C18_every_non_excluded_kind_is_dead_lettered : forall cap s e snd r k mid,
+  excluded k = false -> e_dl e = true ->
+  step cap s (OLocal e true snd (Some r) k mid) = send_dl (mid, sender_of snd, r) s
+  /\ spec_op (OLocal e true snd (Some r) k mid) = [(mid, sender_of snd, r)].
+Proof. exact local_drop_sends. Qed.
+
+(** Which target states: a remote tell whose target is registered but stopping / suspended / passivating / not
+    running is dead-lettered (and not enqueued); only a target for which IsRunning holds receives it. *)
+Theorem C18_remote_tell_target_state : forall cap s e w p r,
+  w_payload w = true -> w_meta w = true -> parse (w_to w) = Some r -> e_dl e = true -> e_guard e = true ->
+  (is_running p = false ->
+     step cap s (ORemote e w (tree_of_state p true)) = send_dl (w_mid w, sender_remote (w_from w), r) s
+     /\ spec_op (ORemote e w (tree_of_state p true)) = [intended w])
+  /\ (is_running p = true ->
+     step cap s (ORemote e w (tree_of_state p true)) = s /\ spec_op (ORemote e w (tree_of_state p true)) = []).
+Proof. exact remote_target_state. Qed.
+
 (** The literal property is refuted by the faithful model; each witness is replayed on the real code. *)
 Theorem C18_exactly_once_refuted_queue_full :
   exists ops, let s := run 256 ops init in
@@ -97,3 +116,5 @@ Print Assumptions C18_exactly_once_refuted_queue_full.
 Print Assumptions C18_exactly_once_refuted_unparseable_receiver.
 Print Assumptions C18_sender_refuted_unparseable_sender.
 Print Assumptions C18_once_refuted_ask_enqueue_failure.
+Print Assumptions C18_every_non_excluded_kind_is_dead_lettered.
+Print Assumptions C18_remote_tell_target_state.
